@@ -141,6 +141,16 @@ pub fn page(cx: &Cx, w: u32, h: u32) -> Page<'static> {
             p
         }
         _ => {
+            if cx.chance(1, 6) {
+                // offer a buffer of another length (over-long mostly): documented to be refused, but
+                // whatever page a tree hands out is a page a caller can send
+                let want = padded_page_len(w, h);
+                let n = if cx.chance(1, 4) { want.saturating_sub(1 + cx.draw(16) as usize) } else { want + 1 + cx.draw(40) as usize };
+                if let Ok(p) = Page::from_bytes(w, h, cx.bytes(n)) {
+                    cx.probe("from_bytes_accepted_undocumented_length");
+                    return p;
+                }
+            }
             let bytes = cx.bytes(padded_page_len(w, h));
             match Page::from_bytes(w, h, bytes) {
                 Ok(p) => p,
